@@ -35,7 +35,11 @@ pub fn read_all<R: Read>(r: &mut R, sizes: &[u32], cap: usize) -> io::Result<Vec
         i += 1;
         if want == 0 {
             zero_reads += 1;
-            let n = r.read(&mut buf[..0])?;
+            let n = match r.read(&mut buf[..0]) {
+                Ok(n) => n,
+                Err(e) if e.kind() == io::ErrorKind::Interrupted => 0,
+                Err(e) => return Err(e),
+            };
             if n != 0 {
                 return Err(io::Error::other("zero-length read returned bytes"));
             }
